@@ -88,10 +88,23 @@ class Report:
         explorer.  A violation is only reported if it reproduces twice.
         """
         known = load_known()
-        open_fps = {
-            (k["property"], k["fingerprint"]): k for k in known.get("open", [])
+        import re
+        open_exact = {
+            (k["property"], k["fingerprint"]): k for k in known.get("open", []) if "fingerprint" in k
         }
+        open_regex = [(k["property"], re.compile(k["fingerprint_regex"]), k)
+                      for k in known.get("open", []) if "fingerprint_regex" in k]
+
+        def match_known(prop, fp):
+            k = open_exact.get((prop, fp))
+            if k is not None:
+                return k
+            for p_, rx, k in open_regex:
+                if p_ == prop and rx.fullmatch(fp):
+                    return k
+            return None
         lines = []
+        known_groups = {}
         unreproduced = []
         n_new = 0
         n_known = 0
@@ -123,17 +136,19 @@ class Report:
             path = os.path.join(REPLAY_DIR, f"{self.prop}-{h}.json")
             with open(path, "w") as f:
                 json.dump(jsonable(rec), f, indent=1)
-            k = open_fps.get((self.prop, fp))
+            k = match_known(self.prop, fp)
             if k is not None:
                 n_known += 1
-                lines.append(
-                    f"KNOWN-FINDING: property={self.prop} {k.get('what', fp)} "
-                    f"[{fp}] x{e['count']} replay={path}"
-                )
+                g = known_groups.setdefault(id(k), [k, 0, 0, path])
+                g[1] += 1
+                g[2] += e["count"]
             else:
                 n_new += 1
                 lines.append(f"VIOLATION property={self.prop} replay={path}")
                 lines.append(f"  fingerprint: {fp}  (x{e['count']})")
+        for k, nfp, ncases, path in known_groups.values():
+            lines.append(f"KNOWN-FINDING: property={self.prop} {k.get('input', '')} -- {k.get('what', '')[:300]} "
+                         f"({nfp} fingerprint(s), {ncases} case(s); e.g. replay={path})")
         if unreproduced:
             self.coverage["unreproduced_fingerprints"] = [u[0] for u in unreproduced]
             for fp, rec, rs in unreproduced:
